@@ -146,10 +146,32 @@ type VK struct{ A int }
 
 func (k VK) MarshalText() ([]byte, error) { return []byte("vk" + strconv.Itoa(k.A)), nil }
 
+// SK, AK: key types that are pointer-shaped without being pointers (one pointer field, a
+// one-element array of a pointer).
+type SK struct{ P *int }
+
+func (k SK) MarshalText() ([]byte, error) {
+	if k.P == nil {
+		return []byte("sk-nil"), nil
+	}
+	return []byte("sk" + strconv.Itoa(*k.P)), nil
+}
+
+type AK [1]*int
+
+func (k AK) MarshalText() ([]byte, error) {
+	if k[0] == nil {
+		return []byte("ak-nil"), nil
+	}
+	return []byte("ak" + strconv.Itoa(*k[0])), nil
+}
+
 type PtrKeys struct {
 	A map[*PK]int
 	B map[*VK]string
 	C map[VK]int
+	D map[SK]bool
+	E map[AK]string
 }
 
 // --- string-kind key whose UnmarshalText normalises and rejects ---------------------------------------------
